@@ -25,8 +25,10 @@ EXTENDS Integers, Sequences, FiniteSets, TLC
 CONSTANTS Fix,     \* subset of AllFixes: repairs applied ({} = the code as it is)
           Bodies,  \* subset of {"none","small","large"}
           PMs      \* subset of {"signed","unsigned","ss","sst","sut"} (payload modes of header auth)
+                   \* and {"ss+te","sst+te","sut+te"}: the same aws-chunked modes sent with HTTP
+                   \* Transfer-Encoding: chunked instead of a Content-Length
 
-AllFixes == {"DeferOnlyStreaming", "DrainBeforeEffect", "ChunkLayerPropagates", "LengthErrorIs4xx"}
+AllFixes == {"DeferOnlyStreaming", "DrainBeforeEffect", "ChunkLayerPropagates", "LengthErrorIs4xx", "StreamEndChecked"}
 ASSUME Fix \subseteq AllFixes
 \* verification is deferred only for branches that stream the body
 DeferOnlyStreaming == "DeferOnlyStreaming" \in Fix
@@ -36,6 +38,13 @@ DrainBeforeEffect == "DrainBeforeEffect" \in Fix
 ChunkLayerPropagates == "ChunkLayerPropagates" \in Fix
 \* a body longer than its declared decoded length is refused with a 4xx
 LengthErrorIs4xx == "LengthErrorIs4xx" \in Fix
+\* the signed chunk decoder reads its source to the end after the final chunk (with
+\* Transfer-Encoding: chunked the end of the raw stream - where the deferred proof is
+\* checked - is reported by a read of its own, after the last body byte)
+StreamEndChecked == "StreamEndChecked" \in Fix
+
+TE(pm) == pm \in {"ss+te", "sst+te", "sut+te"}
+BasePm(pm) == CASE pm = "ss+te" -> "ss" [] pm = "sst+te" -> "sst" [] pm = "sut+te" -> "sut" [] OTHER -> pm
 
 -----------------------------------------------------------------------------
 (* Route table, transcribed from s3api/router.go and the controllers.       *)
@@ -219,6 +228,10 @@ Defects == {
   Df("ps_bad_expiry",         "pre", "malformed", "early"),
   Df("ps_alt_expires",        "pre", "proof",     "proof"),
   Df("ps_alt_query",          "pre", "proof",     "proof"),
+  \* an expired URL with a second, later / fresher occurrence of a signed parameter put in
+  \* front of the signed one: whichever occurrence a reader picks, the URL is not the one signed
+  Df("ps_dup_expires",        "pre", "proof",     "proof"),
+  Df("ps_dup_date",           "pre", "proof",     "proof"),
   Df("ps_wrong_sig",          "pre", "proof",     "proof"),
   Df("ps_wrong_secret",       "pre", "proof",     "proof"),
   Df("ps_unknown_key",        "pre", "account",   "early"),
@@ -244,13 +257,14 @@ PresignTaken(d) == d.am = "pre" /\ d.id # "ps_no_signature"
 (* Bounded input space: route x defect x body size x payload mode.          *)
 Applicable(c) ==
   /\ (c.defect.am = "hdr") = (c.pm # "na")
+  /\ TE(c.pm) => c.route.use \in {"stream", "stream_pre"} /\ c.body # "none"
   /\ c.defect.id = "alt_payload" =>
        /\ c.body # "none"
           \* the payload is covered by the proof only when its hash is signed or,
           \* for aws-chunked uploads, when the chunks are signed; aws-chunked is
           \* only meaningful on the upload routes
        /\ \/ c.pm = "signed"
-          \/ c.pm \in {"ss", "sst"} /\ c.route.use \in {"stream", "stream_pre"}
+          \/ BasePm(c.pm) \in {"ss", "sst"} /\ c.route.use \in {"stream", "stream_pre"}
 
 Cases == { c \in [route : Routes, defect : Defects, body : Bodies, pm : PMs \cup {"na"}] : Applicable(c) }
 
@@ -275,17 +289,21 @@ Act(s) == [s EXCEPT !.stage = "done", !.reply = "2xx",
 \*  - an altered chunk payload leaves the header proof intact (only the chunk
 \*    signature notices).
 ChunkLayerFailsFirst(c) ==
-  /\ c.pm \in {"ss", "sst"} /\ c.body = "large"
+  /\ BasePm(c.pm) \in {"ss", "sst"} /\ (c.body = "large" \/ TE(c.pm))
   /\ c.defect.id \in {"wrong_secret", "alt_sig", "m_sig_empty", "m_sig_short", "alt_payload", "alt_hdr_date"}
-HeaderProofIntact(c) == c.pm \in {"ss", "sst"} /\ c.defect.id = "alt_payload"
+HeaderProofIntact(c) == BasePm(c.pm) \in {"ss", "sst"} /\ c.defect.id = "alt_payload"
 \* alt_hdr_sha replaces the streaming payload mode on the wire: no chunk decoder is
 \* installed, the still-encoded body is longer than the declared decoded length
 \* and the backend's write fails with a non-API error before the stream ends
-LengthMismatch(c) == c.pm \in {"ss", "sst", "sut"} /\ c.defect.id = "alt_hdr_sha"
+LengthMismatch(c) == BasePm(c.pm) \in {"ss", "sst", "sut"} /\ c.defect.id = "alt_hdr_sha"
 \* the unsigned-trailer decoder reads through a bufio.Reader: the verification
 \* error arrives together with the last bytes, is parked inside the bufio.Reader,
 \* and the decoder reports a clean EOF after the trailer without asking again
-SwallowsVerdict(c) == ~ChunkLayerPropagates /\ c.pm = "sut" /\ ~LengthMismatch(c)
+SwallowsVerdict(c) == ~ChunkLayerPropagates /\ BasePm(c.pm) = "sut" /\ ~LengthMismatch(c)
+\* the signed chunk decoder answers EOF at the final (zero-size) chunk; with a chunked
+\* transfer the raw stream has not ended then, nobody reads it again, and the deferred
+\* proof is never checked - only defects the chunk signatures themselves notice are refused
+StreamEndNeverRead(c) == ~StreamEndChecked /\ c.pm \in {"ss+te", "sst+te"} /\ ~LengthMismatch(c) /\ ~ChunkLayerFailsFirst(c)
 Drain(s) ==
   LET c == s.c
       t == [s EXCEPT !.consumed = TRUE]
@@ -294,7 +312,10 @@ Drain(s) ==
   ELSE IF c.defect.stage # "proof" THEN [t EXCEPT !.verified = "yes", !.hooks = hk("checked_ok")]
   ELSE IF LengthMismatch(c) /\ ~LengthErrorIs4xx
        THEN [t EXCEPT !.stage = "done", !.reply = "5xx", !.verified = "rejected", !.hooks = hk("checked_bad")]
+  \* (with a chunked transfer the write fails on the excess bytes before the raw stream ends)
+  ELSE IF LengthMismatch(c) /\ TE(c.pm) THEN Reject(t)
   ELSE IF SwallowsVerdict(c) THEN [t EXCEPT !.verified = "rejected", !.hooks = hk("checked_bad")]
+  ELSE IF StreamEndNeverRead(c) THEN t
   ELSE IF ChunkLayerFailsFirst(c) THEN Reject(t)
   ELSE IF HeaderProofIntact(c) THEN Reject([t EXCEPT !.hooks = hk("checked_ok")])
   ELSE Reject([t EXCEPT !.hooks = hk("checked_bad")])
@@ -381,6 +402,7 @@ Why(c) == LET f == Final(c) IN
   ELSE IF f.pre /\ f.reply # "2xx" THEN "effect-before-drain"
   ELSE IF f.reply = "5xx" THEN "length-error-not-4xx"
   ELSE IF f.consumed /\ SwallowsVerdict(c) THEN "verdict-swallowed"
+  ELSE IF f.consumed /\ StreamEndNeverRead(c) THEN "stream-end-never-read"
   ELSE "never-drained"
 
 (* What the implementation-shaped model predicts for a case, in the         *)
